@@ -24,6 +24,7 @@ package dispatcher
 //@   modifies *
 //@   ensures [exactly_one] responded + forwarded == old(responded) + old(forwarded) + 1
 //@   ensures [path_faithful] forwarded > old(forwarded) ==> fwdpath == old(req.URL.Path) && fwdrawpath == old(req.URL.RawPath)
+//@   ensures [target_is_picked] forwarded > old(forwarded) ==> fwdtransport == pickedtransport && fwdscheme == urlScheme(pickedendpoint) && fwdhost == urlHost(pickedendpoint)
 //@   ensures [held_balanced] forall g ref :: {held[g]} held[g] == old(held[g])
 //@   ensures [rate_limited_429] acqfailed > old(acqfailed) ==> responded == old(responded) + 1 && forwarded == old(forwarded) && lastcode == 429
 //@   ensures [no_endpoint_503] popfailed > old(popfailed) ==> responded == old(responded) + 1 && forwarded == old(forwarded) && lastcode == 503
